@@ -81,6 +81,17 @@ def check_L22(ctx, rep, scope):
                 if r and r[1] in fields:
                     for bb in pat_bindings(x['p']):
                         alias[bb['id']] = r[1]
+        # .. and locals derived from such an alias (`let keys_of_x = rm.entry(x).or_default();`)
+        grew_ = True
+        while grew_:
+            grew_ = False
+            for x, _ in walk(b['tree']):
+                if x.get('k') == 'let' and 'i' in x:
+                    r = _field_of(x['i'], set(alias))
+                    if r and r[0] in alias:
+                        for bb in pat_bindings(x['p']):
+                            if bb['id'] not in alias:
+                                alias[bb['id']] = alias[r[0]]; grew_ = True
         # loops over delta.map (after the merge) that insert into delta.<f>
         completed = set()
         order = {id(x): i for i, (x, _) in enumerate(walk(b['tree']))}
